@@ -34,7 +34,7 @@ package store
 
 // ---- pending batch (headers appended but not yet flushed)
 // batchOK: height -> header and hash -> height maps describe chain headers consistently (C04 clause D)
-//@ pure batchOK(b) = b != nil && (forall h uint64 @ has(b.headers, h) :: has(b.headers, h) ==> b.headers[h].Height() == h && !b.headers[h].IsZero() && sameHdr(b.headers[h], chainAt(h))) && (forall x string @ has(b.heights, x) :: has(b.heights, x) ==> has(b.headers, b.heights[x]) && hexStr(b.headers[b.heights[x]].Hash()) == x)
+//@ pure batchOK(b) = b != nil && (forall h uint64 @ has(b.headers, h) :: has(b.headers, h) ==> b.headers[h].Height() == h && onChain(b.headers[h])) && (forall x string @ has(b.heights, x) :: has(b.heights, x) ==> has(b.headers, b.heights[x]) && hexStr(b.headers[b.heights[x]].Hash()) == x)
 
 //@ func (*batch).GetByHeight(b, height)
 //@   props C04
@@ -85,6 +85,11 @@ package store
 
 //@ pure ptrsOK(s) = (apSet(s.contiguousHead) ==> onChain(apVal(s.contiguousHead))) && (apSet(s.tailHeader) ==> onChain(apVal(s.tailHeader)))
 
+// ---- the representation invariant shared by all goroutines (C04); it is re-assumed after every blocking
+// operation (rely) and proved after every operation that writes (guarantee)
+//@ pure storeINV(s) = hdrCacheOK() && dsHdrOK() && dsIdxOK() && idxCacheOK() && batchOK(s.pending) && ptrsOK(s) && s.heightIndex != nil && s.heightSub != nil
+//@ pure present(s, h) = has(s.pending.headers, h) || dsHas[kHeight(h)] || (apSet(s.contiguousHead) && apVal(s.contiguousHead).Height() == h) || (apSet(s.tailHeader) && apVal(s.tailHeader).Height() == h)
+
 //@ func (*Store).getByHeight(s, ctx, height)
 //@   props C04
 //@   unreachable return3 : datastore read errors other than ErrNotFound are not modelled (store.spec)
@@ -93,6 +98,7 @@ package store
 //@   ensures [C04] coherent: hdrCacheOK() && idxCacheOK()
 //@   ensures [C04] exact-height: result1 == nil ==> result0.Height() == height && onChain(result0)
 //@   ensures [C04] zero-on-error: result1 != nil ==> result0.IsZero()
+//@   ensures [C04] found-is-present: result1 == nil ==> present(s, height)
 //@   ensures [C04] pending-is-readable: has(s.pending.headers, height) ==> result1 == nil && (result0 == s.pending.headers[height] || result0 == apVal(s.contiguousHead) || result0 == apVal(s.tailHeader))
 
 //@ func (*Store).Has(s, ctx, hash)
@@ -105,3 +111,157 @@ package store
 //@   ensures [C08] headers-removed: forall h uint64 @ has(b.headers, h) :: has(b.headers, h) <==> (old(has(b.headers, h)) && !(from <= h && h < to))
 //@   ensures [C08] heights-removed: forall x string @ has(b.heights, x) :: has(b.heights, x) <==> (old(has(b.heights, x)) && !(from <= b.heights[x] && b.heights[x] < to))
 //@   ensures [C04] still-consistent: old(batchOK(b)) ==> batchOK(b)
+
+// every appended header is readable from the batch by height and by hash, older entries stay (C04)
+//@ func (*batch).Append(b, headers)
+//@   props C04
+//@   requires batchOK(b) && forall i int :: 0 <= i && i < len(headers) ==> onChain(headers[i])
+//@   modifies MH_Int_Hdr_has, MH_Int_Hdr_val, MH_Str_Int_has, MH_Str_Int_val
+//@   ensures [C04] consistent: batchOK(b)
+//@   ensures [C04] readable: forall i int :: 0 <= i && i < len(headers) ==> has(b.headers, headers[i].Height()) && sameHdr(b.headers[headers[i].Height()], headers[i]) && has(b.heights, hexStr(headers[i].Hash())) && b.heights[hexStr(headers[i].Hash())] == headers[i].Height()
+//@   ensures [C04] keeps: forall h uint64 @ has(b.headers, h) :: old(has(b.headers, h)) ==> has(b.headers, h)
+//@ loop 0:
+//@   invariant bounds: -1 <= rangeindex && rangeindex + 1 <= len(headers)
+//@   invariant consistent: batchOK(b)
+//@   invariant readable: forall i int :: 0 <= i && i <= rangeindex ==> has(b.headers, headers[i].Height()) && sameHdr(b.headers[headers[i].Height()], headers[i]) && has(b.heights, hexStr(headers[i].Hash())) && b.heights[hexStr(headers[i].Hash())] == headers[i].Height()
+//@   invariant keeps: forall h uint64 @ has(b.headers, h) :: old(has(b.headers, h)) ==> has(b.headers, h)
+//@   invariant frame: unchanged("elems(H)")
+//@   decreases len(headers) - rangeindex
+
+//@ func (*batch).Reset(b)
+//@   props C04, C06
+//@   modifies MH_Int_Hdr_has, MH_Str_Int_has
+//@   ensures [C04] emptied: (forall h uint64 @ has(b.headers, h) :: !has(b.headers, h)) && (forall x string @ has(b.heights, x) :: !has(b.heights, x))
+//@ loop 0:
+//@   invariant gone: forall x string @ visited(x, 0) :: visited(x, 0) ==> !has(b.heights, x)
+//@ loop 1:
+//@   invariant heights-empty: forall x string @ has(b.heights, x) :: !has(b.heights, x)
+//@   invariant gone: forall h uint64 @ visited(h, 1) :: visited(h, 1) ==> !has(b.headers, h)
+
+// Wait blocks: other goroutines (flush loop, DeleteRange) run meanwhile and change every shared part of the store
+//@ func (*heightSub).Wait(hs, ctx, height)
+//@   props C12
+//@   requires hs != nil
+//@   modifies $now, ghost:hcHas, ghost:hcVal, ghost:icHas, ghost:icVal, ghost:dsHas, ghost:dsVal, AP_set, AP_val_Hdr, AT_u64, MH_Int_Hdr_has, MH_Int_Hdr_val, MH_Str_Int_has, MH_Str_Int_val, sub.count, sub.signal, MH_Int_Int_has, MH_Int_Int_val, ghost:arrived
+//@   ensures [C12] elapsed-or-released: result == nil || result == errElapsedHeight || result == context.Canceled || result == context.DeadlineExceeded
+
+//@ func (*Store).GetByHeight(s, ctx, height)
+//@   props C04, C12
+//@   requires storeINV(s)
+//@   ghost werr error := result0 of call Wait #0
+//@   rely after Wait: storeINV(s)
+//@   modifies $now, ghost:hcHas, ghost:hcVal, ghost:icHas, ghost:icVal, ghost:dsHas, ghost:dsVal, AP_set, AP_val_Hdr, AT_u64, MH_Int_Hdr_has, MH_Int_Hdr_val, MH_Str_Int_has, MH_Str_Int_val, sub.count, sub.signal, MH_Int_Int_has, MH_Int_Int_val, ghost:arrived
+//@   ensures [C04] coherent: hdrCacheOK() && idxCacheOK()
+//@   ensures [C04] exact-height: result1 == nil ==> result0.Height() == height && onChain(result0) && height != 0
+//@   ensures [C04] zero-on-error: result1 != nil ==> result0.IsZero()
+//@   ensures [C12] second-lookup: called(werr) && (werr == nil || errors.Is(werr, errElapsedHeight)) && has(s.pending.headers, height) ==> result1 == nil
+//@   ensures [C12] released: called(werr) && werr != nil && !errors.Is(werr, errElapsedHeight) ==> result1 != nil && result0.IsZero()
+
+// read transactions / write batches are an optimisation of the datastore flavour: they do not change the
+// abstract datastore content (A-ds: batched deletes are modelled as applied at once, see store.spec)
+//@ func (*Store).withReadTransaction(s, ctx)
+//@   trusted
+//@ func (*Store).withWriteBatch(s, ctx)
+//@   trusted
+
+// GetRange / GetRangeByHeight return exactly the requested consecutive heights or an error (C04)
+//@ func (*Store).getRangeByHeight(s, ctx, from, to)
+//@   props C04
+//@   requires storeINV(s)
+//@   requires allocatable: to <= from || to - from < 140737488355328
+//@   rely after GetByHeight: storeINV(s)
+//@   modifies $now, ghost:hcHas, ghost:hcVal, ghost:icHas, ghost:icVal, ghost:dsHas, ghost:dsVal, AP_set, AP_val_Hdr, AT_u64, MH_Int_Hdr_has, MH_Int_Hdr_val, MH_Str_Int_has, MH_Str_Int_val, sub.count, sub.signal, MH_Int_Int_has, MH_Int_Int_val, ghost:arrived
+//@   ensures [C04] invalid-range: from >= to ==> result1 != nil
+//@   ensures [C04] exact: result1 == nil ==> len(result0) == to - from && forall i int :: 0 <= i && i < len(result0) ==> result0[i].Height() == from + i && onChain(result0[i])
+//@   ensures [C04] nil-on-error: result1 != nil ==> len(result0) == 0
+//@ loop 0:
+//@   invariant bounds: 0 <= i && i < ln && ln == to - from && len(headers) == ln && from < to
+//@   invariant cursor: onChain(h) && h.Height() == from + i && hdrCacheOK() && dsHdrOK() && batchOK(s.pending)
+//@   invariant filled: forall k int :: i < k && k < ln ==> headers[k].Height() == from + k && onChain(headers[k])
+//@   invariant frame: unchanged("elems(H)")
+//@   decreases i
+
+//@ func (*Store).GetRange(s, ctx, from, to)
+//@   props C04
+//@   requires storeINV(s) && (to <= from || to - from < 140737488355328)
+//@   modifies $now, ghost:hcHas, ghost:hcVal, ghost:icHas, ghost:icVal, ghost:dsHas, ghost:dsVal, AP_set, AP_val_Hdr, AT_u64, MH_Int_Hdr_has, MH_Int_Hdr_val, MH_Str_Int_has, MH_Str_Int_val, sub.count, sub.signal, MH_Int_Int_has, MH_Int_Int_val, ghost:arrived
+//@   ensures [C04] exact: result1 == nil ==> from < to && len(result0) == to - from && forall i int :: 0 <= i && i < len(result0) ==> result0[i].Height() == from + i && onChain(result0[i])
+
+//@ func (*Store).GetRangeByHeight(s, ctx, from, to)
+//@   props C04
+//@   requires storeINV(s) && from.Height() < MaxUint64 && (to <= from.Height() + 1 || to - (from.Height() + 1) < 140737488355328)
+//@   modifies $now, ghost:hcHas, ghost:hcVal, ghost:icHas, ghost:icVal, ghost:dsHas, ghost:dsVal, AP_set, AP_val_Hdr, AT_u64, MH_Int_Hdr_has, MH_Int_Hdr_val, MH_Str_Int_has, MH_Str_Int_val, sub.count, sub.signal, MH_Int_Int_has, MH_Int_Int_val, ghost:arrived
+//@   ensures [C04] exact: result1 == nil ==> from.Height() + 1 < to && len(result0) == to - (from.Height() + 1) && forall i int :: 0 <= i && i < len(result0) ==> result0[i].Height() == from.Height() + 1 + i && onChain(result0[i])
+
+// ---- heightSub: published height (atomic) and waiter records (under heightSubsLk)
+// C17: the published height only grows, whoever writes it (rely/guarantee relation on the atomic)
+//@ atomic [C17] heightSub.height(old, new): old <= new
+
+//@ func (*heightSub).Height(hs)
+//@   props C04, C17
+//@   modifies AT_u64
+//@   ensures [C04] read: result == atomicU64(hs.height)
+
+//@ func (*Store).Height(s)
+//@   inline
+
+// C12 (no lost wake-up), as a monitor invariant of heightSubsLk: nobody is parked on a height whose header
+// has already been announced. `arrived` is the ghost set of heights announced so far (notify(h, true)).
+//@ ghost var arrived Set<uint64> -- heights announced to heightSub (stored headers)
+//@ lockinv heightSub.heightSubsLk(hs): forall h uint64 @ has(hs.heightSubs, h) :: has(hs.heightSubs, h) ==> !arrived[h] && hs.heightSubs[h] != nil
+//@ protected by heightSub.heightSubsLk: MH_Int_Int_has, MH_Int_Int_val, sub.count, ghost:arrived
+
+//@ func (*heightSub).notify(hs, height, all)
+//@   props C12
+//@   requires hs != nil
+//@   requires registered: forall h uint64 @ has(hs.heightSubs, h) :: has(hs.heightSubs, h) ==> hs.heightSubs[h] != nil
+//@   modifies sub.count, MH_Int_Int_has, ghost:arrived
+//@   effect arrived := ite(all, upd(old(arrived), height, true), old(arrived))
+//@   ensures [C12] released: all ==> !has(hs.heightSubs, height)
+//@   ensures [C12] others-kept: forall h uint64 @ has(hs.heightSubs, h) :: h != height ==> (has(hs.heightSubs, h) <==> old(has(hs.heightSubs, h)))
+//@   ensures [C12] only-removes: has(hs.heightSubs, height) ==> old(has(hs.heightSubs, height))
+
+//@ func (*heightSub).SetHeight(hs, height)
+//@   props C04, C12, C17
+//@   requires hs != nil
+//@   modifies AT_u64, sub.count, MH_Int_Int_has, MH_Int_Int_val, ghost:arrived
+//@   ensures [C04,seq] exact: atomicU64(hs.height) == ite(old(atomicU64(hs.height)) >= height, old(atomicU64(hs.height)), height)
+//@   ensures [C17] monotone: atomicU64(hs.height) >= old(atomicU64(hs.height)) && atomicU64(hs.height) >= height
+//@ loop 0:
+//@   invariant [C04,seq] untouched: atomicU64(hs.height) == old(atomicU64(hs.height))
+//@   invariant [C17] grows: atomicU64(hs.height) >= old(atomicU64(hs.height))
+//@ loop 1:
+//@   invariant monitor: forall h uint64 @ has(hs.heightSubs, h) :: has(hs.heightSubs, h) ==> !arrived[h] && hs.heightSubs[h] != nil
+
+//@ func (*heightSub).Notify(hs, heights)
+//@   props C12
+//@   requires hs != nil
+//@   modifies sub.count, MH_Int_Int_has, MH_Int_Int_val, ghost:arrived
+//@   ensures [C12] announced: forall i int :: 0 <= i && i < len(heights) ==> arrived[heights[i]]
+//@ loop 0:
+//@   invariant bounds: -1 <= rangeindex && rangeindex + 1 <= len(heights)
+//@   invariant monitor: forall h uint64 @ has(hs.heightSubs, h) :: has(hs.heightSubs, h) ==> !arrived[h] && hs.heightSubs[h] != nil
+//@   invariant announced: forall i int :: 0 <= i && i <= rangeindex ==> arrived[heights[i]]
+
+//@ func (*heightSub).Init(hs, height)
+//@   props C12
+//@   requires hs != nil
+//@   modifies AT_u64, sub.count, MH_Int_Int_has, MH_Int_Int_val, ghost:arrived
+//@ loop 0:
+//@   invariant monitor: forall h uint64 @ has(hs.heightSubs, h) :: has(hs.heightSubs, h) ==> !arrived[h] && hs.heightSubs[h] != nil
+
+// ---- head / tail maintenance by the single writer (flush loop) and by DeleteRange
+// Head is the top of the contiguous run: it only moves up, never past a gap (C04, C17)
+//@ func (*Store).nextHead(s, ctx)
+//@   props C04, C17
+//@   requires storeINV(s)
+//@   modifies $now, ghost:hcHas, ghost:hcVal, ghost:icHas, ghost:icVal
+//@   ensures [C04] coherent: hdrCacheOK() && idxCacheOK()
+//@   ensures [C04] empty: !apSet(s.contiguousHead) ==> !result1
+//@   ensures [C04] on-chain: apSet(s.contiguousHead) ==> onChain(result0)
+//@   ensures [C17] monotone: apSet(s.contiguousHead) ==> result0.Height() >= apVal(s.contiguousHead).Height() && (result1 <==> result0.Height() > apVal(s.contiguousHead).Height())
+//@   ensures [C04] no-gap: apSet(s.contiguousHead) ==> forall k uint64 :: apVal(s.contiguousHead).Height() < k && k <= result0.Height() ==> present(s, k)
+//@ loop 0:
+//@   invariant coherent: hdrCacheOK() && idxCacheOK() && apSet(s.contiguousHead) && onChain(head)
+//@   invariant monotone: head.Height() >= apVal(s.contiguousHead).Height() && (changed <==> head.Height() > apVal(s.contiguousHead).Height())
+//@   invariant no-gap: forall k uint64 :: apVal(s.contiguousHead).Height() < k && k <= head.Height() ==> present(s, k)
